@@ -241,6 +241,13 @@ class LocalStorageBackend(StorageBackend):
         logger.debug(f"Writing file: {path} ({len(content)} bytes)")
 
         full_path = self._resolve_path(path)
+        if full_path == self._real_base_path():
+            # '', '.', 'data/..' resolve to the table root itself. There is no
+            # file to write, and dirname() of the root is its PARENT: the temp
+            # file below would be created outside the table.
+            raise ValueError(
+                f"Security Error: path '{path}' resolves to the table root, not to a file inside it"
+            )
         dir_path = os.path.dirname(full_path)
         os.makedirs(dir_path, exist_ok=True)
 
